@@ -64,6 +64,7 @@ InitObs(meta) ==
       reqThreads |-> {}, occBad |-> {}, ioWriteBig |-> FALSE, ioTaskBytes |-> -1,
       memBad |-> {},
       shutdown |-> FALSE, afterShutdown |-> {}, undoneAtShutdown |-> FALSE,
+      shutIdx |-> 0, shutBad |-> FALSE,
       cancelAll |-> FALSE, cancelAllHow |-> "", cancelRaised |-> FALSE,
       stuck |-> "", ended |-> FALSE, permsBad |-> FALSE, finalBad |-> <<>>,
       n |-> 0 ]
@@ -382,6 +383,15 @@ Shutdown(o0, ev) ==
                !.undoneAtShutdown = \E j \in DOMAIN o0.x :
                    o0.x[j].call = "returned" /\ ~o0.x[j].flip]
 
+\* executor.shutdown() calls of the manager: every shutdown() shuts the executors down
+\* producers before consumers - submission, request, io (Manager.tla shows why)
+StageIdx(st) == CASE st = "submission" -> 1 [] st = "request" -> 2 [] st = "io" -> 3 [] OTHER -> 0
+ExecShutdown(o0, ev) ==
+    LET k == StageIdx(ev.stage) IN
+    IF k = 0 THEN o0 ELSE
+    [o0 EXCEPT !.shutIdx = k,
+               !.shutBad = @ \/ ~(k = 1 \/ k = o0.shutIdx + 1)]
+
 \* ------------------------------------------------------------------ executors / memory
 ExecSubmit(o0, ev) ==
     LET lim == CASE ev.stage = "request" -> o0.cfg.RQ + o0.cfg.up_chunks + o0.cfg.down_chunks
@@ -456,6 +466,7 @@ Apply(o0, ev) ==
       [] ev.e = "SrcRead" -> SrcRead(o, ev)
       [] ev.e = "IoTask" -> IoTask(o, ev)
       [] ev.e = "PartTask" -> PartTask(o, ev)
+      [] ev.e = "ExecShutdown" -> ExecShutdown(o, ev)
       [] ev.e = "Stuck" -> [o EXCEPT !.stuck = ev.kind]
       [] ev.e = "End" -> End(o, ev)
       [] OTHER -> o
